@@ -29,7 +29,7 @@ META = {
 }
 
 BLOCKS = [["p"], ["cdir"], ["def", 1], ["use", 1], ["nuse", 1], ["fdef", 1], ["fref", 1], ["tgt", 1], ["lnk", 1], ["spec"], ["code"]]
-MORE = [["list"], ["def", 2], ["use", 2], ["nuse", 2], ["fdef", 2], ["fref", 2], ["tgt", 2], ["lnk", 2]]
+MORE = [["list"], ["def", 2], ["use", 2], ["nuse", 2], ["fdef", 2], ["fref", 2], ["tgt", 2], ["lnk", 2], ["topic"], ["img"]]
 WRAPPERS = ["btick", "colon", "opts", "nested2", "div", "include", "substitution"]
 
 
@@ -59,6 +59,10 @@ def block_lines(b, i):
         return [f"[^f{b[1]}]: F{i}x"]
     if k == "fref":
         return [f"G{i}x [^f{b[1]}]"]
+    if k == "topic":       # directives that ask the state machine whether titles are allowed where they stand
+        return ["```{" + ("topic" if i % 2 else "sidebar") + "} Title " + str(i), f"O{i}x", "```"]
+    if k == "img":         # a relative image path is kept as written (also in a file included from another folder)
+        return [f"I{i}x ![alt {i}](images/l{i}.png)"]
     if k == "tgt":
         return [f"(tg{b[1]})=", f"T{i}x"]
     if k == "lnk":
@@ -66,7 +70,7 @@ def block_lines(b, i):
     raise ValueError(k)
 
 
-MARK = {"spec": "S", "p": "P", "code": "C", "list": "L", "cdir": "D", "use": "U", "nuse": "N", "fdef": "F", "fref": "G", "tgt": "T", "lnk": "K"}
+MARK = {"spec": "S", "p": "P", "code": "C", "list": "L", "cdir": "D", "use": "U", "nuse": "N", "fdef": "F", "fref": "G", "tgt": "T", "lnk": "K", "topic": "O", "img": "I"}
 
 
 def join(blocks, start):
@@ -111,7 +115,8 @@ def pair(pre, x, post, w, d: Path, uid):
     elif w == "include":
         # (the same few file names are used again and again within a worker process, with new contents each time:
         # what is included is the file as it is now)
-        fn = f"inc{uid % 3}.md"
+        fn = f"inc{uid % 3}.md" if uid % 2 else f"sub/inc{uid % 3}.md"          # (the file may live in another folder)
+        (d / "sub").mkdir(exist_ok=True)
         (d / fn).write_text("\n".join(lx) + "\n")
         wx = [f"```{{include}} {fn}", "```"]
     else:
@@ -142,7 +147,7 @@ def signatures(doc, blocks):
             if k in ("cdir", "nuse"):
                 if isinstance(n, nodes.Admonition):
                     hit = n             # document order: the innermost admonition comes last
-            elif isinstance(n, (nodes.paragraph, nodes.literal_block, nodes.bullet_list, nodes.footnote)):
+            elif isinstance(n, (nodes.paragraph, nodes.literal_block, nodes.bullet_list, nodes.footnote, nodes.topic, nodes.sidebar)):
                 hit = n
                 break
         if hit is None:
